@@ -90,6 +90,7 @@ type ContractSet struct {
 	Order      []string
 	Lemmas     []*Lemma
 	Structs    []*StructShape
+	EveryCall  []*Clause // `everycall <callee> asserts ...`: a call-site clause for every function under contract that carries one of its tags
 	Rely       []*Clause // what other requests may do to the ghost state in one step (two-state, old() = before)
 	Imports    map[string]string
 }
@@ -97,7 +98,7 @@ type ContractSet struct {
 var clauseKw = map[string]bool{"func": true, "requires": true, "ensures": true, "loop": true, "calls": true,
 	"tags": true, "safety": true, "boundary": true, "modifies": true, "trusted": true, "pure": true,
 	"bounded": true, "lemma": true, "import": true, "inline": true, "nobody": true, "nullable": true,
-	"fresh": true, "maypanic": true, "records": true, "struct": true, "rgensures": true, "rgcalls": true, "rgloop": true, "rely": true, "end": true, "macro": true, "assumes": true, "given": true, "presumes": true, "implements": true}
+	"fresh": true, "maypanic": true, "records": true, "struct": true, "rgensures": true, "rgcalls": true, "rgloop": true, "rely": true, "everycall": true, "end": true, "macro": true, "assumes": true, "given": true, "presumes": true, "implements": true}
 
 var reTagList = regexp.MustCompile(`^\[([A-Za-z0-9, ]+)\]\s*`)
 var reAtName = regexp.MustCompile(`^@([A-Za-z0-9_.\-]+)\s*`)
@@ -233,6 +234,23 @@ func (cs *ContractSet) ParseContractFile(path, pkgPath string) error {
 			if params != nil {
 				cur.ParamNames = params
 			}
+		case "everycall":
+			i := strings.Index(rest, " asserts ")
+			if i < 0 {
+				return fail("everycall <callee> asserts <expr>")
+			}
+			c, err := parseClause("calls", strings.TrimSpace(rest[i+len(" asserts "):]))
+			if err != nil {
+				return err
+			}
+			ck, _, err := cs.normalizeFuncKey(strings.TrimSpace(rest[:i]), pkgPath)
+			if err != nil {
+				return fail("%v", err)
+			}
+			c.Callee = ck
+			c.Pkg = pkgPath
+			cs.EveryCall = append(cs.EveryCall, c)
+			cur = nil
 		case "rely":
 			// rely @name expr   (two-state: old(x) is the value before the other request's step)
 			c, err := parseClause("rely", rest)
